@@ -47,3 +47,14 @@ Proof.
 Qed.
 
 End Same.
+
+(* Every token of either line gets exactly one annotation: the operations that consume a token
+   of x (NoOp, Deletion) are as many as x has tokens, likewise NoOp / Insertion for y. *)
+Theorem operations_cover (T : Type) (eqb : T -> T -> bool) :
+  (forall a b, eqb a b = true <-> a = b) ->
+  forall d x y, x <> [] -> y <> [] -> nth 0 x d = nth 0 y d ->
+  length (filter (fun o => match o with OIns => false | _ => true end) (operations T eqb x y)) = length x /\
+  length (filter (fun o => match o with ODel => false | _ => true end) (operations T eqb x y)) = length y.
+Proof.
+  intros H d x y Hx Hy Hh. apply ok_lengths. exact (operations_valid T eqb H d x y Hx Hy Hh).
+Qed.
